@@ -286,6 +286,7 @@ pub fn run_check(def: &'static CheckDef, thorough: bool, seed: u64, budget_s: f6
             "components_stub": def.stub,
             "build_variant": crate::core::build_variant(),
             "wide_variant_run": std::env::var("VERIF_WIDE_SUMMARY").unwrap_or_else(|_| "not part of this tier".to_string()),
+            "fast_profile_run": std::env::var("VERIF_FAST_SUMMARY").unwrap_or_else(|_| "not part of this check / tier".to_string()),
             "build_profile": if cfg!(debug_assertions) { "release + debug-assertions + overflow-checks" } else { "release" },
             "known_findings_reproduced": known_hits.iter().map(|(k, (n, _))| json!({"signature": k, "runs": n})).collect::<Vec<_>>(),
             "replay": replay_path,
